@@ -65,16 +65,26 @@ def run(prog: Program, chk: Check):
         ids = d.nodes_under(t)
         fol = d.follow_under(t)
         acks = d.call_nodes(is_ack, under=t)
-        tests = [n for n in g.nodes if n.id in ids and n.kind == "test" and any(self_call("connect_module")(c) for c in calls_in(n.ast))]
-        if len(tests) != 1:
+        # the decision point: a test on the call's result, spelt `if connect(...)`, `if not connect(...): return`, or through a
+        # local (`ok = connect(...); if ok:`) - the accepted / refused continuations are told apart by what each edge implies
+        ccalls = [c for n in g.nodes if n.id in ids for c in node_calls(n) if self_call("connect_module")(c)]
+        atoms = {norm(c) for c in ccalls}
+        for n in g.nodes:
+            if n.id in ids and n.kind == "stmt" and isinstance(n.ast, ast.Assign) and len(n.ast.targets) == 1 and isinstance(n.ast.targets[0], ast.Name) and isinstance(n.ast.value, ast.Call) and self_call("connect_module")(n.ast.value):
+                atoms.add(n.ast.targets[0].id)
+        tests = [n for n in g.nodes if n.id in ids and n.kind == "test" and (any(self_call("connect_module")(c) for c in calls_in(n.ast)) or any(isinstance(x, ast.Name) and x.id in atoms for x in ast.walk(n.ast)))]
+        if len(tests) != 1 or len(ccalls) != 1:
             D.bad(fkey(pm, f"{t}:connect-guard"), where(pm), f"{t}: expected one test on connect_module(...), found {len(tests)}")
             continue
         tn = tests[0]
-        plain = isinstance(tn.ast, ast.Call)  # the condition is the call result itself
-        D.decide(plain, fkey(pm, f"{t}:guard-is-result"), where(pm, tn.ast), "guard is the result of connect_module",
-                 f"{t}: connect guard is `{norm(tn.ast)}`, not the plain result of connect_module")
-        true_dst = [e.dst for e in g.succ[tn.id] if e.kind == "true"]
-        false_dst = [e.dst for e in g.succ[tn.id] if e.kind == "false"]
+        atom = next(a for a in atoms if any(norm(x) == a for x in ast.walk(tn.ast)))
+        acc = lambda e: e.cond is not None and guards.implies([(e.cond, e.pol)], guards.parse(atom))
+        ref = lambda e: e.cond is not None and guards.implies([(e.cond, e.pol)], guards.parse(f"not ({atom})"))
+        true_dst = [e.dst for e in g.succ[tn.id] if e.kind != "exc" and acc(e)]
+        false_dst = [e.dst for e in g.succ[tn.id] if e.kind != "exc" and ref(e)]
+        plain = bool(true_dst) and bool(false_dst)  # the test decides on nothing but the result
+        D.decide(plain, fkey(pm, f"{t}:guard-is-result"), where(pm, tn.ast), "the branch is decided by the result of connect_module",
+                 f"{t}: connect guard is `{norm(tn.ast)}`, which does not split into result-truthy / result-falsy continuations")
         ackp = lambda n: any(is_ack(c) for c in node_calls(n))
         lo, hi = flow.count_on_paths(g, ackp, true_dst, [g.exit.id], follow=fol) if true_dst else (-1, -1)
         D.decide((lo, hi) == (1, 1), fkey(pm, f"{t}:accepted-ack-count"), where(pm), f"{t}: accepted handshake acknowledged exactly once",
@@ -151,7 +161,8 @@ def run(prog: Program, chk: Check):
         dn = direct_nodes[0]
         dc = [c for c in node_calls(dn) if is_method_call(c, "send_message")][0]
         hname = path_of(dc.args[0]) if dc.args else None
-        A.decide(len(dc.args) == 2 and isinstance(dc.args[1], ast.Constant) and dc.args[1].value == b"", fkey(sack, "direct-send-empty-payload"),
+        pay = guards.subst(dc.args[1], guards.copy_map(sack.node)) if len(dc.args) == 2 else None  # `no_data = b""` counts
+        A.decide(pay is not None and isinstance(pay, ast.Constant) and pay.value == b"", fkey(sack, "direct-send-empty-payload"),
                  where(sack, dc), "direct send carries an empty payload", f"direct acknowledgement payload is {norm(dc)}")
         want = {
             "msg_type": lambda v: res(v) == consts.get("MT_ACKNOWLEDGE"),
